@@ -488,10 +488,61 @@ theorem missing_key_validate (es : List (θ × ℝ)) (uniq : List θ) (t : θ) (
     exact hmiss e he
   simp [this]
 
-theorem wrong_length_validate (k : SeqKind) (hk : k.recognized = true) (vs : List ℝ) (uniq : List θ)
+theorem wrong_length_validate (k : SeqKind) (vs : List ℝ) (uniq : List θ)
     (h : vs.length ≠ uniq.length) :
     validateNormalize (.seq k vs : NormArg ℝ θ) uniq = .error .wrongLength := by
-  simp [validateNormalize, hk, h]
+  simp [validateNormalize, h]
+
+/-- A refusal of the loop is the refusal of the loop body at some position. -/
+theorem nnLoop_err_position (c : Cells ℝ θ) (d : DArg ℝ) (norm : NormArg ℝ θ) (avg : ℝ) :
+    ∀ (ts : List θ) (rank : Nat) (out : List ℝ) (e : NNErr),
+      nnLoop c d norm avg ts rank out = .error e →
+      ∃ k, ∃ hk : k < ts.length, groupVals c d norm avg ts[k] (rank + k) = .error e := by
+  intro ts
+  induction ts with
+  | nil => intro rank out e h; simp [nnLoop] at h
+  | cons t rest ih =>
+    intro rank out e h
+    simp only [nnLoop] at h
+    cases hg : groupVals c d norm avg t rank with
+    | error e' =>
+      simp only [hg, except_throw] at h
+      injection h with h
+      subst h
+      exact ⟨0, by simp, by simpa using hg⟩
+    | ok g =>
+      simp only [hg] at h
+      obtain ⟨k, hk, hkv⟩ := ih _ _ _ h
+      refine ⟨k + 1, by simpa using hk, ?_⟩
+      have : rank + 1 + k = rank + (k + 1) := by omega
+      simpa [this] using hkv
+
+/-- The loop body only fails with `IndexError` when `normalize[rank]` is out of range. -/
+theorem groupVals_indexError (c : Cells ℝ θ) (d : DArg ℝ) (norm : NormArg ℝ θ) (avg : ℝ) (t : θ) (k : Nat)
+    (h : groupVals c d norm avg t k = .error .indexError) :
+    ∃ kind vs, norm = .seq kind vs ∧ vs.length ≤ k := by
+  unfold groupVals at h
+  by_cases hlt : (groupIdx c.times t).length < 2
+  · simp [hlt] at h
+  · simp only [hlt, if_false] at h
+    cases hon : norm.isOn with
+    | false => simp [hon] at h
+    | true =>
+      simp only [hon, if_true] at h
+      cases norm with
+      | off => simp [NormArg.isOn] at hon
+      | avg => simp [targetCount] at h; split at h <;> simp at h
+      | dict es =>
+        simp only [targetCount] at h
+        cases hf : es.find? (fun e => decide (e.1 = t)) with
+        | none => simp [hf] at h
+        | some e => simp [hf] at h; split at h <;> simp at h
+      | seq kind vs =>
+        refine ⟨kind, vs, rfl, ?_⟩
+        by_contra hk
+        have hk' : k < vs.length := by omega
+        simp only [targetCount, List.getElem?_eq_getElem hk', except_pure] at h
+        by_cases hz : dIsZero d = true <;> simp [hz] at h
 
 end cells
 
